@@ -10,6 +10,7 @@ def run(ctx, rep):
     termination.rule_native_loops_terminate(ctx, rep, "C20-R3")
     regexrules.rule_lastindex_is_match_end(ctx, rep, "C20-R4")
     regexrules.rule_split_separator_discipline(ctx, rep, "C20-R5")
+    regexrules.rule_start_position_inside_subject(ctx, rep, "C20-R9")
     rep.undecided += [
         "the lastIndex state machine over histories of exec/test/assignment",
         "replacement-template expansion ($$, $&, $n ...) and split/match result values",
